@@ -156,6 +156,43 @@ func genMonitor(out *Output, rng *Rng) {
 			checkResultSet(out, "ocsp "+cc.File, rs, on, metas)
 		}
 	}
+	// the same under a configuration whose sections the configurable lints cannot read (fatal results in the set)
+	if bad, err := lint.NewConfigFromString("[e_rsa_fermat_factorization]\nRounds = \"plenty\"\n[e_subj_contains_html_entities]\nSkip = 7\n[e_crl_next_update_invalid]\nSubscriberCRL = \"no\"\n"); err == nil {
+		g.SetConfiguration(bad)
+		cn, ln, _, metas := kindNames(g)
+		for ci, cc := range certs {
+			if ci%6 != 0 && tier() != "thorough" {
+				continue
+			}
+			var rs *zlint.ResultSet
+			var pv interface{}
+			func() {
+				defer func() { pv = recover() }()
+				rs = zlint.LintCertificateEx(cc.Cert, g)
+			}()
+			runs++
+			if pv != nil {
+				out.Violate("C01|panic-escaped:cert-badconfig", fmt.Sprintf("LintCertificateEx panicked under an unreadable configuration: %v", pv), map[string]interface{}{"file": cc.File}, nil, nil)
+				continue
+			}
+			checkResultSetIn(out, "cert "+cc.File+" under an unreadable configuration", rs, cn, metas, cc.DER)
+		}
+		for _, cc := range corpus.CRLs {
+			var rs *zlint.ResultSet
+			var pv interface{}
+			func() {
+				defer func() { pv = recover() }()
+				rs = zlint.LintRevocationListEx(cc.CRL, g)
+			}()
+			runs++
+			if pv != nil {
+				out.Violate("C01|panic-escaped:crl-badconfig", fmt.Sprintf("LintRevocationListEx panicked under an unreadable configuration: %v", pv), cc.File, nil, nil)
+				continue
+			}
+			checkResultSet(out, "crl "+cc.File+" under an unreadable configuration", rs, ln, metas)
+		}
+		g.SetConfiguration(lint.NewEmptyConfig())
+	}
 	// hostile / mutated objects the parser accepts (shared with C02's engine): the result set must still be complete
 	nMut := 300
 	if tier() == "thorough" {
